@@ -37,6 +37,27 @@ fn main() {
         }
         let v: Value = serde_json::from_str(&line).unwrap();
         let id = v["id"].clone();
+        if let Some(text) = v.get("parse_text").and_then(|t| t.as_str()) {
+            // C34 replay: parol's own grammar parser on a text
+            let text = text.to_owned();
+            let r = std::panic::catch_unwind(move || {
+                let mut g = parol::ParolGrammar::new();
+                match parol::parser::parse(&text, "witness.par", &mut g) {
+                    Ok(_) => ("ok".to_string(), String::new()),
+                    Err(e) => {
+                        let d = format!("{e:?}");
+                        let syntax = d.contains("SyntaxErrors") || d.contains("PredictionError") || d.contains("UnprocessedInput") || d.contains("LexerError");
+                        ((if syntax { "syntax_error" } else { "other_error" }).to_string(), d.chars().take(300).collect())
+                    }
+                }
+            });
+            let resp = match r {
+                Ok((k, d)) => json!({"id": id, "ok": true, "parse": k, "detail": d}),
+                Err(_) => json!({"id": id, "ok": false, "error": "panic", "panic": true}),
+            };
+            writeln!(out, "{}", resp).unwrap();
+            continue;
+        }
         let res = std::panic::catch_unwind(|| -> Result<Value, String> {
             let gc = obtain_grammar_config_from_string(v["grammar"].as_str().unwrap(), false).map_err(|e| format!("{e}"))?;
             let names = generate_terminal_names(&gc);
